@@ -742,7 +742,9 @@ structure AccR (src : List Str) (kn : List Str) (a : Acc) (B0 B : Nat) : Prop wh
   xval : ∀ kv ∈ a.extra, ∃ v, kv.2 = XV.s v ∧ v ≠ [] ∧ ∃ r, (kv.1, r) ∈ a.lines ∧ RangeR src r.1 r.2 v
   lval : ∀ kr ∈ a.lines, ∃ v, RangeR src kr.2.1 kr.2.2 v
   lpart : ∀ kr ∈ a.lines, kr.1 ∈ a.known.map (·.1) ∨ kr.1 ∈ a.extra.map (·.1)
-  xorder : kn = [] → a.extra.map (·.1) = a.lines.map (·.1)
+  xents : kn = [] → ∃ ents : List (Str × Str × (Nat × Nat)),
+    a.extra = ents.map (fun e => (e.1, XV.s e.2.1)) ∧ a.lines = ents.map (fun e => (e.1, e.2.2)) ∧
+    ∀ e ∈ ents, e.2.1 ≠ [] ∧ RangeR src e.2.2.1 e.2.2.2 e.2.1
   ord : (a.lines.map (·.2)).Pairwise (fun r r' => r.2 < r'.1)
   bnd : ∀ kr ∈ a.lines, kr.2.2 < B
   lob : ∀ kr ∈ a.lines, B0 ≤ kr.2.1
@@ -924,7 +926,15 @@ theorem addField_R (src : List Str) (kn : List Str) (a : Acc) (f : Fld) (B0 B B'
         · simp only [List.mem_singleton] at h; subst h
           right; simp
       · intro hk0
-        simp only [List.map_append, List.map_cons, List.map_nil, hinv.xorder hk0]
+        obtain ⟨ents, he1, he2, he3⟩ := hinv.xents hk0
+        refine ⟨ents ++ [(name, lstrip (fieldText f), (first.num + (f.lines.takeWhile fun l => isBlank l.val).length, last.num))], ?_, ?_, ?_⟩
+        · simp only [List.map_append, List.map_cons, List.map_nil, he1]
+        · simp only [List.map_append, List.map_cons, List.map_nil, he2]
+        · intro e he
+          rcases List.mem_append.mp he with h | h
+          · exact he3 e h
+          · simp only [List.mem_singleton] at h; subst h
+            exact ⟨hvne, hrange⟩
       · exact hord'
       · exact hbnd'
       · exact hlob'
@@ -981,9 +991,13 @@ structure ParaV (src : List Str) (p : Para) : Prop where
   dnd : ((toDict p).map (·.1)).Nodup
   val : ∀ k v, (k, XV.s v) ∈ toDict p → v ≠ [] → ∃ r, (k, r) ∈ p.lines ∧ RangeR src r.1 r.2 v
   lval : ∀ kr ∈ p.lines, ∃ v, RangeR src kr.2.1 kr.2.2 v
-  cat : p.kind = .catchall → p.fields = [] ∧ p.extra.map (·.1) = p.lines.map (·.1) ∧ (p.extra.map (·.1)).Nodup ∧
-    ∀ kv ∈ p.extra, ∃ v, kv.2 = XV.s v ∧ v ≠ [] ∧ ∃ r, (kv.1, r) ∈ p.lines ∧ RangeR src r.1 r.2 v
   lic : p.kind = .license → licenseParaIsEmpty p = true → licKey ∉ p.lines.map (·.1)
+
+/-- a catch-all paragraph as `from_fields` builds it: its extra data and its ranges are the same entries, in order -/
+def ParaC (src : List Str) (p : Para) : Prop :=
+  p.kind = .catchall → p.fields = [] ∧ (p.extra.map (·.1)).Nodup ∧ ∃ ents : List (Str × Str × (Nat × Nat)),
+    p.extra = ents.map (fun e => (e.1, XV.s e.2.1)) ∧ p.lines = ents.map (fun e => (e.1, e.2.2)) ∧
+    ∀ e ∈ ents, e.2.1 ≠ [] ∧ RangeR src e.2.2.1 e.2.2.2 e.2.1
 
 theorem rangeR_words (src : List Str) (s e : Nat) (v v' : Str) (h : RangeR src s e v) (hw : words v' = words v) :
     RangeR src s e v' := { h with wds := by rw [hw]; exact h.wds }
@@ -1084,15 +1098,20 @@ locates exactly its content -/
 theorem fromFields_V (src : List Str) (K : Kind) (g : List Fld) (B0 Bend : Nat)
     (hR : ∀ f ∈ g, FldR src f) (hpw : (g.flatMap fnums).Pairwise (· < ·))
     (hlo : ∀ n ∈ g.flatMap fnums, B0 ≤ n) (hhi : ∀ n ∈ g.flatMap fnums, n < Bend) (hB : B0 ≤ Bend) :
-    ∃ p, fromFields K g = .ok p ∧ p.kind = K ∧ ParaV src p ∧ (p.lines.map (·.2)).Pairwise (fun r r' => r.2 < r'.1) ∧
+    ∃ p, fromFields K g = .ok p ∧ p.kind = K ∧ ParaV src p ∧ ParaC src p ∧ (p.lines.map (·.2)).Pairwise (fun r r' => r.2 < r'.1) ∧
       ∀ kr ∈ p.lines, B0 ≤ kr.2.1 ∧ kr.2.2 < Bend := by
   unfold fromFields
   simp only
   obtain ⟨a, ha, hinv⟩ := addFields_R src (if K = .catchall then [] else (typedFields K).map (·.1)) g ⟨[], [], [], [], 1⟩ B0 B0 Bend
     ⟨⟨by simp, by simp⟩, by simp, by simp, by simp, by simp, by simp, by simp, by simp, by simp, by simp, by simp,
-      fun _ => rfl, by simp, by simp, by simp, Nat.le_refl _⟩ hR hpw hlo hhi hB
+      fun _ => ⟨[], rfl, rfl, by simp⟩, by simp, by simp, by simp, Nat.le_refl _⟩ hR hpw hlo hhi hB
   rw [ha]
-  refine ⟨_, rfl, rfl, ?_, hinv.ord, fun kr h => ⟨hinv.lob kr h, hinv.bnd kr h⟩⟩
+  refine ⟨_, rfl, rfl, ?_, ?_, hinv.ord, fun kr h => ⟨hinv.lob kr h, hinv.bnd kr h⟩⟩
+  rotate_left
+  · intro hK
+    simp only at hK
+    subst hK
+    exact ⟨by simp [Props.C07.typedFields_catchall], hinv.xnd, hinv.xents (by simp)⟩
   -- the dictionary form: typed fields, then the extra data
   have hd0keys : ((((typedFields K).map fun nc => (nc.1, fromValue nc.2 (a.known.lookup nc.1))).map
       (fun nf => ((nf.1, XV.s (dumps nf.2)) : Str × DV))).map (·.1)) = (typedFields K).map (·.1) := by
@@ -1139,12 +1158,6 @@ theorem fromFields_V (src : List Str) (K : Kind) (g : List Fld) (B0 Bend : Nat)
       obtain ⟨rfl, rfl⟩ := he
       exact ⟨r, hr, rangeR_words src r.1 r.2 v0 _ hrr (Proofs.WordsConv.words_asFormattedText v0)⟩
   · exact hinv.lval
-  · intro hK
-    simp only at hK
-    subst hK
-    refine ⟨by simp [typedFields_catchall], hinv.xorder (by simp), hinv.xnd, ?_⟩
-    intro kv hkv
-    exact hinv.xval kv hkv
   · intro hK hemp hmem
     simp only at hK
     subst hK
@@ -1172,5 +1185,411 @@ theorem fromFields_V (src : List Str) (K : Kind) (g : List Fld) (B0 Bend : Nat)
       have := hinv.xout licKey h
       simp only [hne, if_false, license_fields, List.map_cons, List.map_nil] at this
       exact this (by simp)
+
+/-! ### C. all paragraphs, before the recovery rewrites -/
+
+def gnums (g : List Fld) : List Nat := g.flatMap fnums
+def ranges (ps : List Para) : List (Nat × Nat) := ps.flatMap fun p => p.lines.map (·.2)
+
+def Ordered (l : List (Nat × Nat)) : Prop := l.Pairwise fun r r' => r.2 < r'.1
+
+structure DocV (src : List Str) (ps : List Para) : Prop where
+  paras : ∀ p ∈ ps, ParaV src p
+  ord : Ordered (ranges ps)
+
+theorem groups_V (src : List Str) (gs : List (List Fld)) (B0 : Nat)
+    (hR : ∀ g ∈ gs, ∀ f ∈ g, FldR src f) (hpw : (gs.flatMap gnums).Pairwise (· < ·)) (hlo : ∀ n ∈ gs.flatMap gnums, B0 ≤ n) :
+    ∃ ps, Model.Copyright.mapExcept (fun g => fromFields (classify g) g) gs = .ok ps ∧ DocV src ps ∧
+      (∀ p ∈ ps, ParaC src p) ∧ ∀ r ∈ ranges ps, B0 ≤ r.1 := by
+  induction gs generalizing B0 with
+  | nil =>
+    refine ⟨[], rfl, ⟨?_, ?_⟩, ?_, ?_⟩
+    · intro p hp; cases hp
+    · simp [Ordered, ranges]
+    · intro p hp; cases hp
+    · simp [ranges]
+  | cons g rest ih =>
+    rw [List.flatMap_cons, List.pairwise_append] at hpw
+    -- one past the last line of this group
+    obtain ⟨Bend, hB, hhi, hnext⟩ : ∃ Bend, B0 ≤ Bend ∧ (∀ n ∈ gnums g, n < Bend) ∧ ∀ n ∈ rest.flatMap gnums, Bend ≤ n := by
+      cases hlast : (gnums g).getLast? with
+      | none =>
+        have hnil : gnums g = [] := List.getLast?_eq_none_iff.mp hlast
+        exact ⟨B0, Nat.le_refl _, by rw [hnil]; simp,
+          fun n hn => hlo n (by rw [List.flatMap_cons]; exact List.mem_append.mpr (Or.inr hn))⟩
+      | some m =>
+        have hle := pairwise_le_last (gnums g) hpw.1 m hlast
+        have hmm : m ∈ gnums g := List.mem_of_getLast? hlast
+        refine ⟨m + 1, ?_, fun n hn => Nat.lt_succ_of_le (hle n hn), fun n hn => by have := hpw.2.2 m hmm n hn; omega⟩
+        have := hlo m (by rw [List.flatMap_cons]; exact List.mem_append.mpr (Or.inl hmm)); omega
+    obtain ⟨p, hp, _, hpv, hpc, hpo, hpb⟩ := fromFields_V src (classify g) g B0 Bend (hR g (by simp)) hpw.1
+      (fun n hn => hlo n (by rw [List.flatMap_cons]; exact List.mem_append.mpr (Or.inl hn))) hhi hB
+    obtain ⟨ps, hps, hdv, hpcs, hlob⟩ := ih Bend (fun g' hg' => hR g' (by simp [hg'])) hpw.2.1 hnext
+    refine ⟨p :: ps, by simp [Model.Copyright.mapExcept, hp, hps], ⟨?_, ?_⟩, ?_, ?_⟩
+    · intro q hq
+      rcases List.mem_cons.mp hq with rfl | hq
+      · exact hpv
+      · exact hdv.paras q hq
+    · simp only [Ordered, ranges, List.flatMap_cons]
+      rw [List.pairwise_append]
+      refine ⟨hpo, hdv.ord, ?_⟩
+      intro r hr r' hr'
+      obtain ⟨kr, hkr, rfl⟩ := List.mem_map.mp hr
+      have := (hpb kr hkr).2
+      have := hlob r' hr'
+      omega
+    · intro q hq
+      rcases List.mem_cons.mp hq with rfl | hq
+      · exact hpc
+      · exact hpcs q hq
+    · intro r hr
+      simp only [ranges, List.flatMap_cons, List.mem_append] at hr
+      rcases hr with hr | hr
+      · obtain ⟨kr, hkr, rfl⟩ := List.mem_map.mp hr
+        exact (hpb kr hkr).1
+      · have := hlob r hr; omega
+
+/-! ### D. merging a run of free-text paragraphs -/
+
+theorem ordered_head_le_last (l : List (Nat × Nat)) (n : Nat × Nat) (ho : Ordered (n :: l)) (hle : ∀ r ∈ n :: l, r.1 ≤ r.2) :
+    n.1 ≤ ((n :: l).getLast (by simp)).2 ∧ ∀ r ∈ n :: l, n.1 ≤ r.1 ∧ r.2 ≤ ((n :: l).getLast (by simp)).2 := by
+  induction l generalizing n with
+  | nil =>
+    simp only [List.getLast_singleton, List.mem_singleton]
+    exact ⟨hle n (by simp), fun r hr => by subst hr; exact ⟨Nat.le_refl _, Nat.le_refl _⟩⟩
+  | cons x xs ih =>
+    unfold Ordered at ho
+    rw [List.pairwise_cons] at ho
+    obtain ⟨h1, h2⟩ := ih x ho.2 (fun r hr => hle r (by simp [hr]))
+    have hnx := ho.1 x (by simp)
+    have hn := hle n (by simp)
+    rw [List.getLast_cons (by simp)]
+    refine ⟨by omega, ?_⟩
+    intro r hr
+    rcases List.mem_cons.mp hr with rfl | hr
+    · exact ⟨Nat.le_refl _, by omega⟩
+    · have := h2 r hr; omega
+
+theorem foldl_min_head (ns : List (Nat × Nat)) (m : Nat) (h : ∀ r ∈ ns, m ≤ r.1) : ns.foldl (fun m x => min m x.1) m = m := by
+  induction ns generalizing m with
+  | nil => rfl
+  | cons x xs ih =>
+    have hx := h x (by simp)
+    simp only [List.foldl_cons, Nat.min_eq_left hx]
+    exact ih m (fun r hr => h r (by simp [hr]))
+
+theorem foldl_max_last (ns : List (Nat × Nat)) (m M : Nat) (hm : m ≤ M) (h : ∀ r ∈ ns, r.2 ≤ M) (hex : ns = [] → m = M)
+    (hl : ∀ r ∈ ns.getLast?, r.2 = M) : ns.foldl (fun m x => max m x.2) m = M := by
+  induction ns generalizing m with
+  | nil => exact hex rfl
+  | cons x xs ih =>
+    simp only [List.foldl_cons]
+    apply ih
+    · have := h x (by simp); omega
+    · intro r hr; exact h r (by simp [hr])
+    · intro e
+      subst e
+      have := hl x (by simp)
+      have := h x (by simp)
+      omega
+    · intro r hr
+      apply hl r
+      cases xs with
+      | nil => cases hr
+      | cons y ys => rw [List.getLast?_cons_cons]; exact hr
+
+abbrev Ent := Str × Str × (Nat × Nat)
+def Ent.rng (e : Ent) : Nat × Nat := e.2.2
+def Ent.val (e : Ent) : Str := e.2.1
+
+theorem ordered_last (l : List (Nat × Nat)) (n rE : Nat × Nat) (ho : Ordered (n :: l)) (hle : ∀ r ∈ n :: l, r.1 ≤ r.2)
+    (hE : (n :: l).getLast? = some rE) : n.1 ≤ rE.2 ∧ ∀ r ∈ n :: l, n.1 ≤ r.1 ∧ r.2 ≤ rE.2 := by
+  have := ordered_head_le_last l n ho hle
+  have e : (n :: l).getLast (by simp) = rE := by
+    have h2 := List.getLast?_eq_some_getLast (l := n :: l) (by simp)
+    rw [hE] at h2
+    exact (Option.some.inj h2).symm
+  rw [e] at this
+  exact this
+
+/-- the words of an ordered chain of entries lie in the lines from the first start to the last end -/
+theorem chain_words (src : List Str) (e : Ent) (es : List Ent) (rE : Nat × Nat)
+    (hR : ∀ x ∈ e :: es, RangeR src x.rng.1 x.rng.2 x.val) (ho : Ordered ((e :: es).map Ent.rng))
+    (hE : ((e :: es).map Ent.rng).getLast? = some rE) :
+    subMultiset ((e :: es).flatMap fun x => words x.val) (W src e.rng.1 rE.2) = true := by
+  induction es generalizing e with
+  | nil =>
+    simp only [List.map_cons, List.map_nil, List.getLast?_singleton, Option.some.injEq] at hE
+    subst hE
+    simp only [List.flatMap_cons, List.flatMap_nil, List.append_nil]
+    have := hR e (by simp)
+    rw [← rangeWords_eq src _ _ this.le]; exact this.wds
+  | cons x xs ih =>
+    have hox := ho
+    unfold Ordered at hox
+    simp only [List.map_cons] at hox
+    rw [List.pairwise_cons] at hox
+    have hE' : ((x :: xs).map Ent.rng).getLast? = some rE := by
+      simp only [List.map_cons] at hE ⊢
+      rw [List.getLast?_cons_cons] at hE
+      exact hE
+    have hox2 : Ordered ((x :: xs).map Ent.rng) := by simpa [Ordered] using hox.2
+    have ihx := ih x (fun y hy => hR y (by simp only [List.mem_cons] at hy ⊢; exact Or.inr hy)) hox2 hE'
+    have he := hR e (by simp)
+    have hlt : e.rng.2 < x.rng.1 := hox.1 x.rng (by simp)
+    have hlast := (ordered_last (xs.map Ent.rng) x.rng rE (by simpa using hox2)
+      (by
+        intro r hr
+        have : r ∈ (x :: xs).map Ent.rng := by simpa using hr
+        obtain ⟨y, hy, rfl⟩ := List.mem_map.mp this
+        exact (hR y (by simp only [List.mem_cons] at hy ⊢; exact Or.inr hy)).le) (by simpa using hE')).1
+    rw [List.flatMap_cons]
+    have hew : subMultiset (words e.val) (W src e.rng.1 e.rng.2) = true := by
+      rw [← rangeWords_eq src _ _ he.le]; exact he.wds
+    apply subMultiset_trans_sublist _ _ _ (subMultiset_append _ _ _ _ hew ihx)
+    exact W_sublist src _ _ _ _ he.le hlt hlast
+
+open Props.C11W in
+theorem para_ents (src : List Str) (p : Para) (hk : p.kind = .catchall) (hc : ParaC src p) :
+    ∃ ents : List Ent, (toDict p).map (·.2) = ents.map (fun e => XV.s (asFormattedText e.val)) ∧
+      p.lines.map (·.2) = ents.map Ent.rng ∧ ∀ e ∈ ents, e.val ≠ [] ∧ RangeR src e.rng.1 e.rng.2 e.val := by
+  obtain ⟨hf, hnd, ents, he1, he2, he3⟩ := hc hk
+  refine ⟨ents, ?_, ?_, he3⟩
+  · have hp : p = { kind := .catchall, fields := [], extra := p.extra, lines := p.lines } := by
+      cases p; simp only at hk hf; subst hk hf; rfl
+    rw [hp, toDict_simple p.extra p.lines hnd, he1, List.map_map, List.map_map]
+    apply List.map_congr_left
+    intro e he
+    have hne := (he3 e he).1
+    have hie : e.2.1.isEmpty = false := by
+      cases hv : e.2.1 with
+      | nil => exact absurd hv hne
+      | cons _ _ => rfl
+    simp only [Function.comp, conv, hie, Bool.false_eq_true, if_false, Ent.val]
+  · rw [he2, List.map_map]; rfl
+
+theorem run_ents (src : List Str) (g : List Para) (hg : ∀ p ∈ g, p.kind = .catchall ∧ ParaC src p) :
+    ∃ Ents : List Ent, (g.flatMap fun p => (toDict p).map (·.2)) = Ents.map (fun e => XV.s (asFormattedText e.val)) ∧
+      ranges g = Ents.map Ent.rng ∧ ∀ e ∈ Ents, e.val ≠ [] ∧ RangeR src e.rng.1 e.rng.2 e.val := by
+  induction g with
+  | nil => exact ⟨[], rfl, rfl, by simp⟩
+  | cons p ps ih =>
+    obtain ⟨ents, h1, h2, h3⟩ := para_ents src p (hg p (by simp)).1 (hg p (by simp)).2
+    obtain ⟨Ents, H1, H2, H3⟩ := ih (fun q hq => hg q (by simp [hq]))
+    refine ⟨ents ++ Ents, ?_, ?_, ?_⟩
+    · rw [List.flatMap_cons, h1, H1, List.map_append]
+    · simp only [ranges, List.flatMap_cons] at H2 ⊢
+      rw [h2, H2, List.map_append]
+    · intro e he
+      rcases List.mem_append.mp he with h | h
+      · exact h3 e h
+      · exact H3 e h
+
+theorem filterMap_dvStr (es : List Ent) :
+    es.filterMap (dvStr ∘ fun e => XV.s (asFormattedText e.val)) = es.map fun e => asFormattedText e.val := by
+  induction es with
+  | nil => rfl
+  | cons e es ih => simp only [List.filterMap_cons, Function.comp, dvStr, ih, List.map_cons]
+
+theorem rangeR_nil (src : List Str) (s e : Nat) (v : Str) (h : RangeR src s e v) : RangeR src s e [] :=
+  { h with wds := by simp [subMultiset, removeAll, Spec.Words.words, Py.splitWs, Py.splitWsAux] }
+
+open Props.C11W in
+/-- **merging a run**: the merged paragraph has one range, from the first start to the last end, and it locates the
+merged text -/
+theorem mergeRun_V (src : List Str) (g : List Para) (m : Para) (hg : ∀ p ∈ g, p.kind = .catchall ∧ ParaC src p)
+    (hord : Ordered (ranges g)) (h : mergeRun g = .ok m) :
+    ParaV src m ∧ m.kind = .catchall ∧ ((ranges g = [] ∧ m.lines = []) ∨
+      ∃ n rE, (ranges g).head? = some n ∧ (ranges g).getLast? = some rE ∧ m.lines = [(unknownName, (n.1, rE.2))]) := by
+  obtain ⟨Ents, H1, H2, H3⟩ := run_ents src g hg
+  unfold mergeRun at h
+  simp only at h
+  have hany : ((g.flatMap fun p => (toDict p).map (·.2)).any fun v => v = XV.emptyList) = false := by
+    rw [H1, List.any_eq_false]
+    intro v hv
+    obtain ⟨e, _, rfl⟩ := List.mem_map.mp hv
+    simp
+  rw [hany] at h
+  simp only [Bool.false_eq_true, if_false, Except.ok.injEq] at h
+  have hvalues : (g.flatMap fun p => (toDict p).map (·.2)).filterMap dvStr = Ents.map fun e => asFormattedText e.val := by
+    rw [H1, List.filterMap_map]; exact filterMap_dvStr Ents
+  have hnums : (g.flatMap fun p => p.lines.map (·.2)) = Ents.map Ent.rng := H2
+  rw [hvalues, hnums] at h
+  cases hE : Ents with
+  | nil =>
+    rw [hE] at h
+    simp only [List.map_nil, List.isEmpty_nil, if_true] at h
+    subst h
+    refine ⟨⟨by simp, ?_, ?_, by simp, by intro hk; cases hk⟩, rfl, Or.inl ⟨by rw [H2, hE]; rfl, rfl⟩⟩
+    · rw [toDict_simple _ _ (by simp)]; simp
+    · intro k v hkv _
+      rw [toDict_simple _ _ (by simp)] at hkv
+      simp [conv] at hkv
+  | cons e es =>
+    rw [hE] at h H2 H3
+    have hordE : Ordered ((e :: es).map Ent.rng) := by rw [← H2]; exact hord
+    have hle : ∀ r ∈ (e :: es).map Ent.rng, r.1 ≤ r.2 := by
+      intro r hr
+      obtain ⟨x, hx, rfl⟩ := List.mem_map.mp hr
+      exact (H3 x hx).2.le
+    obtain ⟨rE, hrE⟩ : ∃ rE, ((e :: es).map Ent.rng).getLast? = some rE :=
+      ⟨_, List.getLast?_eq_some_getLast (by simp)⟩
+    obtain ⟨eL, heL, heLr⟩ : ∃ eL ∈ e :: es, eL.rng = rE := by
+      have := List.mem_of_getLast? hrE
+      obtain ⟨x, hx, hxr⟩ := List.mem_map.mp this
+      exact ⟨x, hx, hxr⟩
+    have hol := ordered_last (es.map Ent.rng) e.rng rE (by simpa using hordE) (by simpa using hle) (by simpa using hrE)
+    -- the hull computed by the two folds
+    have hmin : (es.map Ent.rng).foldl (fun m x => min m x.1) e.rng.1 = e.rng.1 :=
+      foldl_min_head _ _ (fun r hr => (hol.2 r (by simp [hr])).1)
+    have hmax : (es.map Ent.rng).foldl (fun m x => max m x.2) e.rng.2 = rE.2 := by
+      apply foldl_max_last _ _ _ (hol.2 e.rng (by simp)).2 (fun r hr => (hol.2 r (by simp [hr])).2)
+      · intro hnil
+        simp only [List.map_cons, hnil, List.getLast?_singleton, Option.some.injEq] at hrE
+        rw [← hrE]
+      · intro r hr
+        simp only [List.map_cons] at hrE
+        cases hes : es.map Ent.rng with
+        | nil => rw [hes] at hr; cases hr
+        | cons y ys =>
+          rw [hes] at hr hrE
+          rw [List.getLast?_cons_cons] at hrE
+          rw [hrE] at hr
+          simp only [Option.mem_def, Option.some.injEq] at hr
+          rw [hr]
+    simp only [List.map_cons, List.isEmpty_cons, Bool.false_eq_true, if_false, hmin, hmax] at h
+    subst h
+    -- the range of the merged text
+    have hS := (H3 e (by simp)).2
+    have hL := (H3 eL heL).2
+    have hrange : ∀ v, words v = (e :: es).flatMap (fun x => words x.val) → RangeR src e.rng.1 rE.2 v := by
+      intro v hv
+      refine ⟨hS.lo, hol.1, ?_, hS.first, ?_, ?_⟩
+      · rw [← heLr]; exact hL.hi
+      · rw [← heLr]; exact hL.last
+      · rw [rangeWords_eq src _ _ hol.1, hv]
+        exact chain_words src e es rE (fun x hx => (H3 x hx).2) hordE hrE
+    refine ⟨⟨by simp, ?_, ?_, ?_, by intro hk; cases hk⟩, rfl,
+      Or.inr ⟨e.rng, rE, by rw [H2]; rfl, by rw [H2]; exact hrE, rfl⟩⟩
+    · rw [toDict_simple _ _ (by simp)]; simp
+    · intro k v hkv hv
+      rw [toDict_simple _ _ (by simp)] at hkv
+      simp only [List.map_cons, List.map_nil, List.mem_singleton, conv, Prod.mk.injEq, XV.s.injEq] at hkv
+      obtain ⟨rfl, rfl⟩ := hkv
+      refine ⟨(e.rng.1, rE.2), by simp, ?_⟩
+      apply hrange
+      have hw : words (fromFormattedLines (asFormattedText e.val :: es.map fun e => asFormattedText e.val)) =
+          (e :: es).flatMap (fun x => words x.val) := by
+        rw [Proofs.WordsConv.words_fromFormattedLines]
+        simp only [List.flatMap_cons, List.flatMap_map, Proofs.WordsConv.words_asFormattedText]
+      split
+      · exact hw
+      · rw [Proofs.WordsConv.words_asFormattedText]; exact hw
+    · intro kr hkr
+      simp only [List.mem_singleton] at hkr
+      subst hkr
+      refine ⟨[], ⟨hS.lo, hol.1, ?_, hS.first, ?_, ?_⟩⟩
+      · rw [← heLr]; exact hL.hi
+      · rw [← heLr]; exact hL.last
+      · simp [subMultiset, removeAll, Spec.Words.words, Py.splitWs, Py.splitWsAux]
+
+theorem ordered_hull (A M C : List (Nat × Nat)) (n rE : Nat × Nat) (ho : Ordered (A ++ M ++ C))
+    (hn : n ∈ M) (hr : rE ∈ M) : Ordered (A ++ [(n.1, rE.2)] ++ C) := by
+  unfold Ordered at *
+  rw [List.pairwise_append, List.pairwise_append] at ho
+  obtain ⟨⟨hA, _, hAM⟩, hC, hAMC⟩ := ho
+  rw [List.pairwise_append, List.pairwise_append]
+  refine ⟨⟨hA, by simp, ?_⟩, hC, ?_⟩
+  · intro a ha b hb
+    simp only [List.mem_singleton] at hb
+    subst hb
+    exact hAM a ha n hn
+  · intro a ha c hc
+    rcases List.mem_append.mp ha with h | h
+    · exact hAMC a (List.mem_append.mpr (Or.inl h)) c hc
+    · simp only [List.mem_singleton] at h
+      subst h
+      exact hAMC rE (List.mem_append.mpr (Or.inr hr)) c hc
+
+theorem ordered_drop (A M C : List (Nat × Nat)) (ho : Ordered (A ++ M ++ C)) : Ordered (A ++ C) := by
+  unfold Ordered at *
+  rw [List.pairwise_append, List.pairwise_append] at ho
+  obtain ⟨⟨hA, _, _⟩, hC, hAMC⟩ := ho
+  rw [List.pairwise_append]
+  exact ⟨hA, hC, fun a ha c hc => hAMC a (List.mem_append.mpr (Or.inl ha)) c hc⟩
+
+theorem ranges_append (a b : List Para) : ranges (a ++ b) = ranges a ++ ranges b := by simp [ranges]
+
+open Props.C07 Props.C11W in
+theorem foldl_mstep_V (src : List Str) (gs : List (List Para)) (out out' : List Para)
+    (hkind : ∀ g ∈ gs, ∀ q ∈ g, ∀ q' ∈ g, q.kind = q'.kind)
+    (hc : ∀ g ∈ gs, ∀ q ∈ g, ParaC src q) (hd : DocV src (out ++ gs.flatten))
+    (h : gs.foldl mstep (.ok out) = .ok out') : DocV src out' := by
+  induction gs generalizing out with
+  | nil => simp at h hd; subst h; exact hd
+  | cons g rest ih =>
+    simp only [List.foldl_cons] at h
+    have hrestk := fun g' hg' => hkind g' (List.mem_cons_of_mem _ hg')
+    have hrestc := fun g' hg' => hc g' (List.mem_cons_of_mem _ hg')
+    cases g with
+    | nil =>
+      simp only [mstep] at h
+      exact ih out hrestk hrestc (by simpa using hd) h
+    | cons p ps =>
+      simp only [mstep] at h
+      by_cases hcond : (p.kind ≠ .catchall || (p :: ps).length = 1 || !(p :: ps).all isAllUnknown) = true
+      · rw [if_pos hcond] at h
+        exact ih (out ++ (p :: ps)) hrestk hrestc (by simpa [List.append_assoc] using hd) h
+      · rw [if_neg hcond] at h
+        cases hm : mergeRun (p :: ps) with
+        | error e =>
+          rw [hm] at h
+          simp only at h
+          rw [foldl_mstep_error] at h; cases h
+        | ok m =>
+          rw [hm] at h
+          simp only at h
+          have hpk : p.kind = .catchall := by
+            simp only [Bool.or_eq_true, decide_eq_true_eq, not_or] at hcond
+            have := hcond.1.1
+            simpa using this
+          have hgall : ∀ q ∈ p :: ps, q.kind = .catchall ∧ ParaC src q := by
+            intro q hq
+            exact ⟨(hkind (p :: ps) (by simp) q hq p (by simp)).trans hpk, hc (p :: ps) (by simp) q hq⟩
+          -- the ranges of the run, inside the whole list
+          have hord := hd.ord
+          simp only [List.flatten_cons] at hord
+          rw [← List.append_assoc, ranges_append, ranges_append] at hord
+          have hrunord : Ordered (ranges (p :: ps)) := by
+            have h2 := hord
+            unfold Ordered at h2 ⊢
+            rw [List.pairwise_append, List.pairwise_append] at h2
+            exact h2.1.2.1
+          obtain ⟨hmv, hmk, hml⟩ := mergeRun_V src (p :: ps) m hgall hrunord hm
+          apply ih (out ++ [m]) hrestk hrestc _ h
+          constructor
+          · intro q hq
+            rcases List.mem_append.mp hq with hq | hq
+            · rcases List.mem_append.mp hq with hq | hq
+              · exact hd.paras q (List.mem_append.mpr (Or.inl hq))
+              · simp only [List.mem_singleton] at hq; subst hq; exact hmv
+            · exact hd.paras q (List.mem_append.mpr (Or.inr (by simp only [List.flatten_cons]; exact List.mem_append.mpr (Or.inr hq))))
+          · rw [ranges_append, ranges_append]
+            rcases hml with ⟨hnil, hl⟩ | ⟨n, rE, hn, hr, hl⟩
+            · have : ranges [m] = [] := by simp [ranges, hl]
+              rw [this, List.append_nil]
+              exact ordered_drop _ _ _ hord
+            · have : ranges [m] = [(n.1, rE.2)] := by simp [ranges, hl]
+              rw [this]
+              exact ordered_hull _ _ _ n rE hord (List.mem_of_mem_head? hn) (List.mem_of_getLast? hr)
+
+open Props.C07 in
+theorem mergeUnknown_V (src : List Str) (ps ps' : List Para) (hd : DocV src ps) (hc : ∀ p ∈ ps, ParaC src p)
+    (h : mergeUnknown ps = .ok ps') : DocV src ps' := by
+  rw [mergeUnknown_eq] at h
+  have hprops := groupByKind_props ps
+  have hflat := (Props.C09G.groupByKind_flatten ps).1
+  exact foldl_mstep_V src (groupByKind ps) [] ps' (fun g hg => (hprops g hg).2)
+    (fun g hg q hq => hc q ((hprops g hg).1 q hq)) (by simpa [hflat] using hd) h
 
 end Props.C10R
